@@ -39,6 +39,13 @@ pub mod util {
     {
         assert(((x << 1u8) | b) == x * 2 + b) by (bit_vector) requires x < 128, b <= 1;
     }
+    pub proof fn lemma_shift_or16(x: u16, b: u16)
+        requires x < 32768, b <= 1
+        ensures ((x << 1u16) | b) == x * 2 + b
+    {
+        assert(((x << 1u16) | b) == x * 2 + b) by (bit_vector) requires x < 32768, b <= 1;
+    }
+    //@@INCLUDE u_format/fmt_spec.rs
     //@@INCLUDE u_format/dump_spec.rs
     //@@ITEMS util
     }
